@@ -17,6 +17,7 @@ Trace == ndJsonDeserialize(TraceFile)
 VARIABLES l, fails
 vars == <<l, fails>>
 
+Informational(sc) == sc.flag \in {"version", "help"}   \* -version, -h: print and exit 0, nothing else
 PriorIsFile(sc) == sc.prior \in {"own", "ownnoop", "ownlong", "ownstub", "owncase", "older", "garbage", "empty"}
 
 (* C17 *)
@@ -28,14 +29,19 @@ FailureWritesNothing(r) == LET o == r.obs sc == r.sc IN
            \/ PriorIsFile(sc) /\ sc.rm /\ o.outKind = "absent"
            \/ sc.prior = "dir" /\ o.outKind = "dir"
            \/ sc.prior \in {"absent", "parentfile"} /\ o.outKind = "absent"
+InfoOnly(r) == LET o == r.obs sc == r.sc IN
+    Informational(sc) =>
+        /\ o.exit = 0 /\ o.stdoutLen > 0 /\ ~o.stdoutHasSource
+        /\ IF PriorIsFile(sc) THEN o.outKind = "file" /\ o.outSame ELSE o.outKind = "absent"
+        /\ o.straceOK => o.srcWrites = 0
 SuccessComplete(r) == LET o == r.obs sc == r.sc IN
-    (o.exit = 0) =>
+    (o.exit = 0 /\ ~Informational(sc)) =>
         /\ (sc.out = "stdout") => (o.stdoutEqualsRef /\ o.outKind = "absent")
         /\ (sc.out # "stdout") => (o.outKind = "file" /\ o.outEqualsRef /\ ~o.stdoutHasSource)
         \* written once: one write carries the generated source (to -out, to fd 1, or to a
         \* temporary that is renamed onto -out); -out is truncated at most once
         /\ o.straceOK => (o.srcWrites = 1 /\ o.truncOpens <= 1)
-C17(r) == FailureWritesNothing(r) /\ SuccessComplete(r)
+C17(r) == FailureWritesNothing(r) /\ SuccessComplete(r) /\ InfoOnly(r)
 
 (* C18 *)
 C18(r) == r.obs.otherChanged = <<>> /\ (r.obs.straceOK => r.obs.foreignWrites = <<>>)
@@ -46,35 +52,38 @@ C19(r) == LET o == r.obs IN
     /\ o.exit >= 0
     /\ (o.exit # 0) => o.stderrLen > 0
     \* exit 0 means output was produced
-    /\ (o.exit = 0 /\ r.sc.out = "stdout") => o.stdoutHasSource
-    /\ (o.exit = 0 /\ r.sc.out # "stdout") => (o.outKind = "file" /\ o.outHasSource)
+    /\ (o.exit = 0 /\ r.sc.out = "stdout" /\ ~Informational(r.sc)) => o.stdoutHasSource
+    /\ (o.exit = 0 /\ r.sc.out # "stdout" /\ ~Informational(r.sc)) => (o.outKind = "file" /\ o.outHasSource)
+    /\ Informational(r.sc) => (o.exit = 0 /\ o.stdoutLen > 0)
+    /\ (r.sc.flag = "bad") => (o.exit # 0 /\ o.stderrNamesArg)      \* the diagnostic names the undefined flag
     \* where the lookup of an argument is what fails (per spec/Cli.tla), the diagnostic names that argument
-    /\ (o.exit # 0 /\ r.pred.stderr \in {"notfound", "notiface"}) => o.stderrNamesArg
+    /\ (o.exit # 0 /\ r.pred.stderr \in {"notfound", "notiface", "dupname"}) => o.stderrNamesArg
 
 (* C15 *)
 C15(r) == LET o == r.obs sc == r.sc IN
-    /\ (sc.prior = "own" /\ ~sc.rm /\ sc.out = "file" /\ o.exit = 0) => o.outSame           \* own output is a fixed point
+    /\ (sc.prior = "own" /\ ~sc.rm /\ sc.out = "file" /\ o.exit = 0 /\ sc.args = "ok") => o.outSame           \* own output is a fixed point
     /\ o.secondRan => o.secondSame     \* whatever was there before: what moq just wrote, left in place, is reproduced by the same command
-    /\ (sc.rm /\ sc.out \in {"file", "otherpkg"} /\ PriorIsFile(sc) /\ sc.fault = "none" /\ sc.args \in {"ok", "ok2", "okalias"})
+    /\ (sc.rm /\ sc.out \in {"file", "otherpkg"} /\ PriorIsFile(sc) /\ sc.fault = "none" /\ sc.args \in {"ok", "ok2", "okalias"} /\ sc.flag = "none")
           => (o.exit = 0 /\ o.outEqualsRef /\ (o.straceOK => o.unlinkBeforeLoad))            \* -rm: prior content irrelevant
 
 (* C16 at the command line: whatever layout the previous file had, a run    *)
 (* with the default formatter leaves exactly the canonical output            *)
-C16(r) == (r.sc.prior = "ownnoop" /\ r.sc.out = "file" /\ r.obs.exit = 0) => r.obs.outEqualsRef
+C16(r) == (r.sc.prior = "ownnoop" /\ r.sc.out = "file" /\ r.obs.exit = 0 /\ r.sc.flag = "none") => r.obs.outEqualsRef
 
 (* C07 at the command line: -stub (or its absence) is honoured whatever an    *)
 (* earlier run with the other setting left at -out                           *)
-C07(r) == (r.sc.prior = "ownstub" /\ r.sc.out # "stdout" /\ r.obs.exit = 0) => r.obs.outEqualsRef
+C07(r) == (r.sc.prior = "ownstub" /\ r.sc.out # "stdout" /\ r.obs.exit = 0 /\ r.sc.flag = "none") => r.obs.outEqualsRef
 
 (* C14 at the command line: the same command gives the same bytes whatever   *)
 (* an earlier generation left at -out                                        *)
-C14(r) == (r.sc.prior \in {"own", "ownnoop", "ownlong", "ownstub", "owncase"} /\ r.sc.out # "stdout" /\ r.obs.exit = 0) => r.obs.outEqualsRef
+C14(r) == (r.sc.prior \in {"own", "ownnoop", "ownlong", "ownstub", "owncase"} /\ r.sc.out # "stdout" /\ r.obs.exit = 0 /\ r.sc.flag = "none") => r.obs.outEqualsRef
 
 (* conformance with the prediction of spec/Cli.tla *)
 Conforms(r) == LET o == r.obs p == r.pred IN
     /\ o.exit = p.exit
-    /\ (p.outSt = "new") <=> (o.exit = 0 /\ r.sc.out # "stdout")
-    /\ (p.srcOnStdout = "full") <=> (o.exit = 0 /\ r.sc.out = "stdout")
+    /\ (p.outSt = "new") <=> (o.exit = 0 /\ r.sc.out # "stdout" /\ ~Informational(r.sc))
+    /\ (p.srcOnStdout = "full") <=> (o.exit = 0 /\ r.sc.out = "stdout" /\ ~Informational(r.sc))
+    /\ p.version <=> o.versionPrinted
 
 Check(name, ok) == IF ok THEN {} ELSE {name}
 Verdict(r) == Check("C07", C07(r)) \cup Check("C14", C14(r)) \cup Check("C15", C15(r)) \cup Check("C16", C16(r)) \cup Check("C17", C17(r)) \cup Check("C18", C18(r)) \cup Check("C19", C19(r))
